@@ -34,8 +34,8 @@ from ..canon import canon
 from ..gen import Gen, Universe
 from ..passcheck import count_verdicts, node_classes, safe_str, skeleton, subexpressions
 from ..phi import WorldSet, phi
-from ..seval import CB, S
-from ..world import Ambiguous, Unsupported, World
+from ..seval import S
+from ..world import Unsupported, World
 
 LEVEL = "exploration"
 ENGINE = "seval"
@@ -70,6 +70,10 @@ ASSUMPTIONS = [
     "variables are differentiated by label, so replacing inside a variable keeps diff(., v) meaningful",
     "for derivative(F, u, du) the statement is read as: the value of the (evaluated) derivative with the fields overridden; when a key is "
     "u (or a coefficient_derivatives key) or an image depends on it this is 'differentiate first' (the reading documented in replace.py)",
+    "when no key is a differentiation variable and no image depends on one, S(derivative node) under the override is the expectation "
+    "(Gateaux derivative by definition, spatial derivatives of the images included); a disagreement is attributed to replace only if "
+    "expand_derivatives agrees with the definition on the input itself (otherwise it is noted as an expand_derivatives suspect and skipped); "
+    "the targeted workload 'cellwise-constant-key' maps a Constant / DG0 coefficient under grad inside derivative() to a varying image",
     "replace(e, m) on an input containing CoefficientDerivative returns the expanded derivative even when no key occurs; only value "
     "equality is asserted there",
     "replace(form, m) drops integrals whose integrand is the literal Zero (map_integrands); the no-key monitor compares the remaining "
@@ -83,8 +87,8 @@ NCASES = {"quick": 8000, "thorough": 120000}
 CASE_TIMEOUT = 40.0
 EVAL_COUNTER = "cases"
 FLOORS = {
-    "quick": {"case_held": 1700, "effective": 1500, "rejected_as_required": 200, "identity_checks": 200, "form_groups_held": 750,
-              "deriv_held": 240, "nonterminal_held": 200, "literal_sweep_held": 350},
+    "quick": {"case_held": 1500, "effective": 1300, "rejected_as_required": 170, "identity_checks": 170, "form_groups_held": 650,
+              "deriv_held": 200, "nonterminal_held": 170, "literal_sweep_held": 350},
     "thorough": {"case_held": 25000, "effective": 22000, "rejected_as_required": 3000, "identity_checks": 3000, "form_groups_held": 11000,
                  "deriv_held": 3600, "nonterminal_held": 3000, "literal_sweep_held": 350},
 }
@@ -886,10 +890,6 @@ def family_form(ctx, i, rng):
         ctx.count("case_undecided")
 
 
-SHAPE_KINDS = ["scalar->vector", "vector->scalar", "vector->longer", "vector->matrix", "matrix->vector", "vector->pynumber", "scalar->matrix",
-               "matrix->transposed-shape"]
-
-
 def mismatching_image(rng, U, key, cplx):
     g = U.gdim
     sh = key.shape
@@ -1103,6 +1103,7 @@ def family_deriv(ctx, i, rng):
         mode = rng.choice(["other", "other", "direction", "variable", "image-has-u", "mixed", "absent"])
         if const_under_grad is not None:
             mode = "cellwise-constant-key"
+            ctx.count("deriv_cellwise_constant_key_cases")
         diffvars = [u] + (list(cd) if cd else [])
     except Exception as ex:
         ctx.count("build_rejected")
